@@ -222,6 +222,52 @@ class Interp:
     def new_state(self) -> State:
         return State()
 
+    _DEFAULT_PURE_CALLS = {"set", "list", "dict", "tuple", "frozenset", "bytes", "bytearray", "timedelta", "field", "int", "str", "float", "bool", "object", "Lock"}
+
+    def default_value(self, fi: FunctionInfo, name: str, dnode: ast.AST, st: State, ctx: Ctx) -> Term:
+        """The value of a parameter default.  Python evaluates a default ONCE, when the `def` is executed (at import):
+        a default that calls something whose result depends on when it is called (a clock reading, a counter, an
+        environment lookup) is that one import-time value at every later call - modelled as a named unknown that is
+        equal to nothing computed during a call.  Literals, names, and constructor calls of plain containers are
+        evaluated in place (a mutable default is one shared object: judged by the rules that care, e.g. C03 R3.3)."""
+        for n in ast.walk(dnode):
+            if isinstance(n, ast.Call):
+                fn = ast.unparse(n.func).split(".")[-1]
+                if fn not in self._DEFAULT_PURE_CALLS:
+                    r = None
+                    try:
+                        r = self.prog.resolve_expr(fi.module, n.func)
+                    except Exception:  # noqa: BLE001
+                        r = None
+                    if r and r[0] == "class":
+                        continue          # an instance of a repository class / enum member built at import
+                    T.HAZARDS.setdefault(("IMPORTTIME", f"{fi.key}.{name}"),
+                                         f"the default of parameter {name} of {fi.qualname} is `{ast.unparse(dnode)[:60]}`: evaluated once at import, not at each call")
+                    # the same expression, evaluated apart from this call: what it reads from the clock is a reading
+                    # taken at import, a different occurrence from every reading of the call
+                    try:
+                        sub = State()
+                        v = self.eval(dnode, sub, ctx)
+                    except (AnalysisError, Unsupported, NeedSplit):
+                        v = None
+                    tag = f"import:{fi.qualname}.{name}"
+
+                    def ren(x: Any) -> Any:
+                        if isinstance(x, tuple):
+                            if len(x) == 2 and x[0] == "occ" and isinstance(x[1], str):
+                                return ("occ", f"{tag}:{x[1]}")
+                            if x[:1] == ("obj",):
+                                raise AnalysisError("object")
+                            return tuple(ren(y) for y in x)
+                        return x
+                    if v is not None and not any(e.kind == "call" and not _benign_event(e, sub) for e in sub.events):      # (had it raised, the module would not import)
+                        try:
+                            return ren(v)
+                        except AnalysisError:
+                            pass
+                    return ("sym", f"import-time:{fi.qualname}.{name}", "any")
+        return self.eval(dnode, st, ctx)
+
     def sym_object(self, st: State, cls: Optional[ClassInfo], name: str, fields: Optional[Dict[str, Term]] = None) -> Term:
         return st.alloc(HeapObj("obj", cls, dict(fields or {}), [], True, name, False))
 
@@ -302,7 +348,7 @@ class Interp:
         # defaults
         for name, dnode in fi.defaults().items():
             if name not in st.env:
-                st.env[name] = self.eval(dnode, st, Ctx(None, fi.module, ctx.depth + 1))
+                st.env[name] = self.default_value(fi, name, dnode, st, Ctx(None, fi.module, ctx.depth + 1))
         for p in fi.params:
             if p not in st.env:
                 raise AnalysisError(f"missing argument {p} for {fi.key}")
@@ -1372,7 +1418,7 @@ class Interp:
             s0.env = dict(bound)
             for name, dnode in fi.defaults().items():
                 if name not in s0.env:
-                    s0.env[name] = self.eval(dnode, s0, Ctx(None, fi.module, ctx.depth + 1))
+                    s0.env[name] = self.default_value(fi, name, dnode, s0, Ctx(None, fi.module, ctx.depth + 1))
 
             def at_yield(s: State, value: Term) -> List[Tuple[State, Any]]:
                 genv = s.env
@@ -1657,7 +1703,7 @@ class Interp:
         st.env = dict(bound)
         for name, dnode in fi.defaults().items():
             if name not in st.env:
-                st.env[name] = self.eval(dnode, st, Ctx(None, fi.module, ctx.depth + 1))
+                st.env[name] = self.default_value(fi, name, dnode, st, Ctx(None, fi.module, ctx.depth + 1))
 
         def at_yield(s: State, value: Term) -> List[Tuple[State, Any]]:
             genv = s.env
@@ -2654,6 +2700,12 @@ class Interp:
                     return ("eattr", base, attr, tuple(ci.enum.members))
             return ("extmeth", base, attr)
         if t == "exc":
+            if attr in ("strerror", "errno", "filename", "winerror", "reason", "msg") and len(base) > 3:
+                # what the environment put into the exception it raised: a fact of the environment, not an unknown of
+                # the analysis (one symbol per raise site and attribute)
+                return ("sym", f"{base[1]}@{str(base[3]).split(' ')[0]}.{attr}", "any")
+            if attr == "args" and len(base) > 2 and isinstance(base[2], tuple) and base[2]:
+                return ("tuple", tuple(base[2]))
             return ("extmeth", base, attr)
         if t == "lookup" and all(v[0] == "enum" for _, v in base[1]):
             try:
